@@ -614,7 +614,13 @@ class Configuration(_Configuration):
             self._rollback_reload()
             raise
 
-        self._commit_reload()
+        try:
+            self._commit_reload()
+        except BaseException:
+            # the routes of the new configuration could not be set up (ParseNeighbor.commit): the running
+            # configuration stays, and the leftovers of this one must not be found by the next reload
+            self._rollback_reload()
+            raise
         self._link()
 
         check = self.validate()
